@@ -187,15 +187,24 @@ def run_cases(descs, timeout=600, workers=None, progress=None):
     if workers is None:
         workers = min(16, os.cpu_count() or 1)
     results = [None] * len(descs)
+    # identical descriptors share one cache directory: execute each distinct one once
+    first = {}
+    for i, d in enumerate(descs):
+        first.setdefault(desc_key(d), i)
+    uniq = sorted(first.values())
     with concurrent.futures.ThreadPoolExecutor(workers) as ex:
-        futs = {ex.submit(_run_one, d, timeout): i for i, d in enumerate(descs)}
+        futs = {ex.submit(_run_one, descs[i], timeout): i for i in uniq}
         done = 0
         for fut in concurrent.futures.as_completed(futs):
             i = futs[fut]
             results[i] = fut.result()
             done += 1
             if progress and done % 8 == 0:
-                print("  gridlab: %d/%d cases" % (done, len(descs)), flush=True)
+                print("  gridlab: %d/%d cases" % (done, len(uniq)), flush=True)
+    for i, d in enumerate(descs):
+        if results[i] is None:
+            r = results[first[desc_key(d)]]
+            results[i] = GridCase(d, r.path, r.status, r.cached)
     prune_cache()
     crashed = [r for r in results if r.outcome == "worker-crashed"]
     if crashed:
